@@ -112,13 +112,45 @@ type AnalyzedLetStatement struct {
 
 func (self AnalyzedLetStatement) Kind() AnalyzedStatementKind { return LetStatementKind }
 func (self AnalyzedLetStatement) Span() errors.Span           { return self.Range }
+// Whether the type has a form in the source language.
+func typeCanBeWritten(typ Type) bool {
+	switch typ.Kind() {
+	case NeverTypeKind, UnknownTypeKind:
+		return false
+	case ListTypeKind:
+		return typeCanBeWritten(typ.(ListType).Inner)
+	case OptionTypeKind:
+		return typeCanBeWritten(typ.(OptionType).Inner)
+	case ObjectTypeKind:
+		for _, field := range typ.(ObjectType).ObjFields {
+			if !typeCanBeWritten(field.Type) {
+				return false
+			}
+		}
+	case FnTypeKind:
+		fn := typ.(FunctionType)
+		params, isNormal := fn.Params.(NormalFunctionTypeParamKindIdentifier)
+		if !isNormal {
+			return false
+		}
+		for _, param := range params.Params {
+			if !typeCanBeWritten(param.Type) {
+				return false
+			}
+		}
+		return typeCanBeWritten(fn.ReturnType)
+	}
+	return true
+}
+
 func (self AnalyzedLetStatement) String() string {
 	pub := ""
 	if self.IsPub {
 		pub = "pub "
 	}
-	// `never` and `unknown` are types of the analysis, they cannot be written in a program
-	if self.VarType.Kind() == NeverTypeKind || self.VarType.Kind() == UnknownTypeKind {
+	// `never`, `unknown` and the types of builtins with variable argument lists are types of the analysis,
+	// they cannot be written in a program
+	if !typeCanBeWritten(self.VarType) {
 		return fmt.Sprintf("%slet %s = %s;", pub, self.Ident, self.Expression)
 	}
 	return fmt.Sprintf("%slet %s: %s = %s;", pub, self.Ident, self.VarType, self.Expression)
